@@ -12,6 +12,7 @@ starting from the empty registry; there is no further hypothesis.  Restrictions 
 NotifyExitHopHtlc), blinded paths are the `pathID` / `total` fields of `Ctx`.
 -/
 import LndModel.C15.ReplayLemmas
+import LndModel.C15.FailLemmas
 
 set_option linter.unusedSimpArgs false
 
@@ -543,6 +544,235 @@ example :
       (.notify (exAmpShard 2 40 6 1 1007))).2.msgs = [(1, .settle .settled 5 100)] ∧
     (step exH exP exCfg (run exH exP exCfg Reg.empty [.addInvoice exAmpInv, .notify (exAmpShard 1 60 5 0 1234)])
       (.notify (exAmpShard 2 40 6 1 1007))).2.reply = .res (.fail .ampReconstruction 100) := by
+  decide
+
+/-! ### round 5: full circuit keys, AMP set level, address rule, settle / cancel races -/
+
+/-- **the circuit-key encoding is injective**: two htlcs agree on the model's key iff they agree
+    on BOTH the channel id and the (uint64) htlc id.  HTLC ids are per-channel counters, so two
+    htlcs of one invoice may share the htlc id (different channels) or the channel; they are
+    different keys of every map, list and lookup of this model. -/
+theorem ckey_inj {c1 h1 c2 h2 : Nat} (b1 : h1 < 18446744073709551616)
+    (b2 : h2 < 18446744073709551616) (e : ckey c1 h1 = ckey c2 h2) : c1 = c2 ∧ h1 = h2 := by
+  unfold ckey at e
+  omega
+
+theorem ckey_chan_htlc {c h : Nat} (b : h < 18446744073709551616) :
+    ckeyChan (ckey c h) = c ∧ ckeyHtlc (ckey c h) = h := by
+  unfold ckeyChan ckeyHtlc ckey
+  omega
+
+/-- same htlc id on two channels, and two htlc ids on one channel, are different keys. -/
+example : ckey 7 0 ≠ ckey 8 0 ∧ ckey 7 0 ≠ ckey 7 1 ∧ ckeyChan (ckey 7 3) = 7 ∧ ckeyHtlc (ckey 7 3) = 3 := by
+  decide
+
+/-- **amp_set_paid** (state invariant, every reachable registry, both stores): for every AMP
+    htlc that is recorded settled, the htlcs recorded settled under its set id that declare the
+    same total sum to at least that total (`setPaid`).  Together with `settle_only_if_paid_amp`
+    (each of them: preimage hashing to its own payment hash, invoice's payment address, margins,
+    total ≥ invoice value) this is the AMP form of "the htlcs of its set declare one common total
+    not below the invoice amount and sum to at least that total" as a property of the database,
+    also when a set id is paid more than once or with several totals (lnd allows both). -/
+theorem amp_set_paid (H : Nat → Nat) (P : List (Nat × Nat) → Nat → Nat → Nat) (cfg : Cfg)
+    (evs : List Event) :
+    ∀ a ∈ (run H P cfg Reg.empty evs).amps, ∀ h ∈ a.htlcs, h.base.state = .settled →
+      a.value ≤ h.base.mppTotal ∧ h.base.mppTotal ≤ setPaid a.htlcs h.setID h.base.mppTotal := by
+  intro a ha h hh hs
+  exact ⟨(((reachable_good H P cfg evs).agood a ha).each h hh).totalGe,
+    reachable_setPaid H P cfg evs a ha h hh hs⟩
+
+/-- `setPaid` counts exactly the settled htlcs of that set id with that declared total. -/
+example :
+    setPaid [⟨⟨1, 60, 100, .settled, 0, 0, 0, true⟩, 9, 0, 0, 0, none⟩,
+             ⟨⟨2, 40, 100, .settled, 0, 0, 0, true⟩, 9, 0, 0, 1, none⟩,
+             ⟨⟨3, 70, 100, .accepted, 0, 0, 0, true⟩, 9, 0, 0, 2, none⟩,
+             ⟨⟨4, 50, 100, .settled, 0, 0, 0, true⟩, 8, 0, 0, 0, none⟩] 9 100 = 100 := by
+  decide
+
+/-- **the payment-address rule for every recorded htlc** (not only settled ones; MPP record,
+    blinded path and legacy / keysend form), for every invoice of every reachable registry: when
+    NotifyExitHopHtlc records a new circuit key then (1) an MPP record carries the invoice's
+    payment address — whether or not the invoice requires one; (2) without MPP record a blinded
+    path ID is the invoice's payment address; (3) with neither, the invoice does not require an
+    address or the call is a valid keysend. -/
+theorem recorded_htlc_address (H : Nat → Nat) (P : List (Nat × Nat) → Nat → Nat → Nat) (cfg : Cfg)
+    (evs : List Event) :
+    ∀ inv ∈ (run H P cfg Reg.empty evs).invs, ∀ (ctx : Ctx) (g : Htlc),
+      ctx.rejectDelta = cfg.rejectDelta → findHtlc inv ctx.key = none →
+      findHtlc (inotify H ctx inv).1 ctx.key = some g →
+      (∀ t a, ctx.mpp = some (t, a) → a = inv.payAddr) ∧
+      (ctx.mpp = none → ∀ a, ctx.pathID = some a → a = inv.payAddr) ∧
+      (ctx.mpp = none → ctx.pathID = none → validKeysend H ctx = true ∨ inv.payAddrReq = false) := by
+  intro inv hm ctx g hR hfresh hrec
+  have hg := (reachable_good H P cfg evs).good inv hm
+  have hg' : Good H cfg.rejectDelta (inotify H ctx inv).1 := inotify_good hg hR
+  have hauth := hg'.static.auth g (findHtlc_some hrec).1
+  rw [(accepted_htlc_terms hfresh hrec).2.2.2.2.2] at hauth
+  unfold authCheck effMpp at hauth
+  refine ⟨?_, ?_, ?_⟩
+  · intro t a hmpp
+    simpa [hmpp] using hauth
+  · intro hmpp a hp
+    simpa [hmpp, hp] using hauth
+  · intro hmpp hp
+    simp only [hmpp, hp] at hauth
+    cases hv : validKeysend H ctx with
+    | true => exact Or.inl rfl
+    | false => right; simpa [hv] using hauth
+
+/-- the blinded-path instance is non-vacuous: the path ID equal to the address is recorded. -/
+example : (findHtlc (inotify exH { exBlinded 55 with rejectDelta := 4 } exInv.toInvoice).1 5).isSome = true := by
+  decide
+
+/-- **the terms of a recorded AMP htlc**: whenever the AMP notify path records a new htlc (answer
+    `accept` for a partial set or a fresh `Settled`), the call carried an AMP and an MPP record,
+    the MPP record's address is the invoice's payment address, the declared total is positive and
+    at least the invoice value, the set's accepted htlcs declare that same total, both CLTV
+    margins hold at the call's height, and the circuit key was not recorded on the invoice. -/
+theorem recorded_amp_htlc_terms {H : Nat → Nat} {ctx : Ctx} {a : AmpInv}
+    (hr : (anotify H P drop ctx a).2.1.addsHtlc = true) :
+    ∃ total addr, AddFacts ctx a total addr := by
+  have sh := anotify_shape (H := H) (P := P) (drop := drop) ctx a
+  generalize (anotify H P drop ctx a).1 = a' at sh
+  generalize (anotify H P drop ctx a).2.1 = r at sh hr
+  generalize (anotify H P drop ctx a).2.2 = msgs at sh
+  cases sh with
+  | same _ _ _ _ hadd => rw [hadd] at hr; cases hr
+  | replaySettled => cases hr
+  | partialAdd total addr f => exact ⟨total, addr, f⟩
+  | reconFail => cases hr
+  | settled total addr f => exact ⟨total, addr, f⟩
+
+theorem run_append (H : Nat → Nat) (P : List (Nat × Nat) → Nat → Nat → Nat) (cfg : Cfg) (reg : Reg)
+    (l1 l2 : List Event) : run H P cfg reg (l1 ++ l2) = run H P cfg (run H P cfg reg l1) l2 := by
+  induction l1 generalizing reg with
+  | nil => rfl
+  | cons e es ih => simp only [List.cons_append, run]; exact ih _
+
+/-- **a canceled htlc is never settled** (resolution level; covers the hold-invoice races
+    cancel-then-settle and set-timeout-then-settle written as event sequences).  Let htlc `h` be
+    recorded canceled on a plain invoice of a reachable registry (by CancelInvoice, by the hold
+    timer = set timeout, or by a set failure).  After any further events `more`, no event `e`
+    produces a settle resolution for `h.key` — neither as the answer of a NotifyExitHopHtlc call
+    for that key nor on a hodl subscription (SettleHodlInvoice, a completing shard, a replay) —
+    provided that afterwards no other invoice records the same circuit key (circuit keys are
+    assigned by the node's own links: one htlc, one payment hash). -/
+theorem canceled_never_settles (H : Nat → Nat) (P : List (Nat × Nat) → Nat → Nat → Nat) (cfg : Cfg)
+    (evs more : List Event) (e : Event) :
+    let reg := run H P cfg Reg.empty evs
+    let reg2 := run H P cfg reg more
+    let reg3 := (step H P cfg reg2 e).1
+    let out := (step H P cfg reg2 e).2
+    ∀ inv ∈ reg.invs, ∀ h ∈ inv.htlcs, h.state = .canceled →
+      (∀ i ∈ reg3.invs, i.hash ≠ inv.hash → ∀ g ∈ i.htlcs, g.key ≠ h.key) →
+      (∀ a ∈ reg3.amps, ∀ g ∈ a.htlcs, g.base.key ≠ h.key) →
+      (∀ kind p ht, (h.key, Res.settle kind p ht) ∉ out.msgs) ∧
+      (∀ ctx kind p ht, e = .notify ctx → ctx.key = h.key →
+        out.reply ≠ .res (.settle kind p ht)) := by
+  intro reg reg2 reg3 out inv hinv h hh hcan huniq huniqA
+  have hreg2 : reg2 = run H P cfg Reg.empty (evs ++ more) := by
+    simp only [reg2, reg]; rw [run_append]
+  have hreg3 : reg3 = run H P cfg Reg.empty (evs ++ (more ++ [e])) := by
+    simp only [reg3, reg2, reg]
+    rw [run_append, run_append]; rfl
+  have hg3 : RegGood H cfg.rejectDelta reg3 := by rw [hreg3]; exact reachable_good H P cfg _
+  -- the successor of `inv` in reg3 still records `h.key` as canceled
+  obtain ⟨i3, hi3, hmono⟩ : ∃ i' ∈ reg3.invs, Mono inv i' := by
+    have := (states_monotone_run H P cfg evs (more ++ [e])).1 inv hinv
+    rw [hreg3, run_append]; exact this
+  obtain ⟨h3, hh3, hk3, _, hc3⟩ := settled_xor_canceled hmono hh
+  have hc3' : h3.state = .canceled := hc3 hcan
+  -- a settle resolution for the key puts it on record as settled somewhere in reg3
+  have key : ∀ p, ¬ (Paid H cfg.rejectDelta reg3 h.key p ∨ PaidAmp H cfg.rejectDelta reg3 h.key p) := by
+    intro p hp
+    rcases hp with ⟨i, hi, _, _, _, g, hg, hgk, hgs, _⟩ | ⟨a, ha, g, hg, hgk, _⟩
+    · by_cases c : i.hash = inv.hash
+      · have : i = i3 := hash_inj hg3.nodup hi hi3 (c.trans hmono.1.1)
+        subst this
+        have : g = h3 := key_inj (hg3.good i hi).static.nodup hg hh3 (hgk.trans hk3.symm)
+        subst this
+        rw [hgs] at hc3'; cases hc3'
+      · exact huniq i hi c g hg hgk
+    · exact huniqA a ha g hg hgk
+  have sp := settle_only_if_paid H P cfg (evs ++ more) e
+  simp only at sp
+  rw [← hreg2] at sp
+  refine ⟨?_, ?_⟩
+  · intro kind p ht hmsg
+    exact key p (sp.2 h.key kind p ht hmsg)
+  · intro ctx kind p ht he hk hrep
+    have := (sp.1 ctx kind p ht he hrep).2
+    rw [hk] at this
+    exact key p this
+
+/-- non-vacuity of `canceled_never_settles`: a hold invoice, one shard accepted, the hold timer
+    cancels it (`tick 30`); the premises hold and a later SettleHodlInvoice answers `stillOpen`
+    with no resolution at all. -/
+example :
+    let reg := run exH exP exCfg Reg.empty
+      [.addInvoice { exInv with hodl := true, preimage := none }, .notify (exShard 1 60), .tick 30]
+    (∃ inv ∈ reg.invs, ∃ h ∈ inv.htlcs, h.key = 1 ∧ h.state = .canceled) ∧
+    (step exH exP exCfg reg (.settle 7)).2.reply = .op .stillOpen ∧
+    (step exH exP exCfg reg (.settle 7)).2.msgs = [] := by
+  decide
+
+/-- **fail_only_if_canceled** (dual of `settle_only_if_paid`): after any event list, every fail
+    resolution that the next event delivers on a hodl subscription — CancelInvoice, the hold timer
+    (set timeout), a set failure of NotifyExitHopHtlc (total mismatch / too low, failed AMP
+    reconstruction) — is for an htlc that is recorded canceled in the registry after the event. -/
+theorem fail_only_if_canceled (H : Nat → Nat) (P : List (Nat × Nat) → Nat → Nat → Nat) (cfg : Cfg)
+    (evs : List Event) (e : Event) :
+    let reg := run H P cfg Reg.empty evs
+    ∀ k r ah, (k, Res.fail r ah) ∈ (step H P cfg reg e).2.msgs →
+      CanceledIn (step H P cfg reg e).1 k := by
+  intro reg k r ah hm
+  exact step_fail_canceled hm
+
+/-- **a settled htlc is never canceled** (resolution level; the settle-then-cancel and
+    settle-then-timeout races as event sequences).  Let htlc `h` be recorded settled on a plain
+    invoice of a reachable registry.  After any further events `more`, no event `e` delivers a
+    fail resolution for `h.key` on a hodl subscription, provided that afterwards no other invoice
+    records the same circuit key. -/
+theorem settled_never_canceled (H : Nat → Nat) (P : List (Nat × Nat) → Nat → Nat → Nat) (cfg : Cfg)
+    (evs more : List Event) (e : Event) :
+    let reg := run H P cfg Reg.empty evs
+    let reg2 := run H P cfg reg more
+    let reg3 := (step H P cfg reg2 e).1
+    let out := (step H P cfg reg2 e).2
+    ∀ inv ∈ reg.invs, ∀ h ∈ inv.htlcs, h.state = .settled →
+      (∀ i ∈ reg3.invs, i.hash ≠ inv.hash → ∀ g ∈ i.htlcs, g.key ≠ h.key) →
+      (∀ a ∈ reg3.amps, ∀ g ∈ a.htlcs, g.base.key ≠ h.key) →
+      ∀ r ah, (h.key, Res.fail r ah) ∉ out.msgs := by
+  intro reg reg2 reg3 out inv hinv h hh hset huniq huniqA r ah hmsg
+  have hreg3 : reg3 = run H P cfg Reg.empty (evs ++ (more ++ [e])) := by
+    simp only [reg3, reg2, reg]
+    rw [run_append, run_append]; rfl
+  have hg3 : RegGood H cfg.rejectDelta reg3 := by rw [hreg3]; exact reachable_good H P cfg _
+  obtain ⟨i3, hi3, hmono⟩ : ∃ i' ∈ reg3.invs, Mono inv i' := by
+    have := (states_monotone_run H P cfg evs (more ++ [e])).1 inv hinv
+    rw [hreg3, run_append]; exact this
+  obtain ⟨h3, hh3, hk3, hs3, _⟩ := settled_xor_canceled hmono hh
+  have hs3' : h3.state = .settled := hs3 hset
+  rcases step_fail_canceled hmsg with ⟨i, hi, g, hg, hgk, hgc⟩ | ⟨a, ha, g, hg, hgk, _⟩
+  · by_cases c : i.hash = inv.hash
+    · have : i = i3 := hash_inj hg3.nodup hi hi3 (c.trans hmono.1.1)
+      subst this
+      have : g = h3 := key_inj (hg3.good i hi).static.nodup hg hh3 (hgk.trans hk3.symm)
+      subst this
+      rw [hgc] at hs3'; cases hs3'
+    · exact huniq i hi c g hg hgk
+  · exact huniqA a ha g hg hgk
+
+/-- non-vacuity of `settled_never_canceled` / `fail_only_if_canceled`: a settled MPP invoice; a
+    later CancelInvoice answers `alreadySettled` without any resolution, while on an open invoice
+    the hold timer delivers `MppTimeout` for the accepted shard, which is then recorded canceled. -/
+example :
+    let reg := run exH exP exCfg Reg.empty [.addInvoice exInv, .notify (exShard 1 60), .notify (exShard 2 40)]
+    (∃ inv ∈ reg.invs, ∃ h ∈ inv.htlcs, h.key = 1 ∧ h.state = .settled) ∧
+    (step exH exP exCfg reg (.cancel 1007)).2.reply = .op .alreadySettled ∧
+    (step exH exP exCfg reg (.cancel 1007)).2.msgs = [] ∧
+    (step exH exP exCfg (run exH exP exCfg Reg.empty [.addInvoice exInv, .notify (exShard 1 60)])
+      (.tick 30)).2.msgs = [(1, .fail .mppTimeout 100)] := by
   decide
 
 end LndModel.C15
